@@ -52,7 +52,7 @@ PROPS["C04"] = {
 }
 
 PROPS["C05"] = {
-    "kani": ["c05_encoder"],
+    "kani": ["c05_encoder", "c05_fmtrec"],
     "verus": [],
     "technique": "Kani/CBMC full-domain harnesses on TTYEncoder::encode per command variant (panic freedom, literal sequences, SGR code selection); core::fmt rendering assumed",
     "level_text": "Proved (Kani, every parameter value and capability setting): encode never panics or overflows for CursorTo/CursorMove/Scroll/ScrollRegion/EraseChars/DecModeSet/DecModeGet/KeyboardLevel/Color query; "
